@@ -132,6 +132,8 @@ void h_sync(void)
 	int r = rtr_sync(&g_sock);
 
 	CHECK(r == 0 || r == -1, "C05 rtr_sync returns success or error");
+	CHECK(SYNC_POST(r, &g_sock, &g_pre, g_now, g_gh.store_ok), "C05/C07/C13 rtr_sync: contract assumed by the state machine unit");
+	CHECK(!(r == -1 && g_gh.store_ok) || g_clock_fails, "C07 a completed payload phase is reported as failure only if the clock failed");
 	CHECK(g_sock.version <= g_pre.version, "C13 version never raised");
 	CHECK(g_gh.store_calls <= 1, "C05 at most one payload phase per synchronisation");
 	if (r == 0) {
